@@ -49,7 +49,8 @@ class ExecSide(object):
             for to in (False, True):
                 for named in (False, True):
                     for stub in ((False, True) if f == 'none' else (False,)):     # a process that outlives the kill
-                        sc = {'batches': [[{'uid': 1, 'fault': f, 'timeout': to, 'stubborn': stub}]],
+                        sc = {'batches': [[{'uid': 1, 'fault': f, 'timeout': to, 'stubborn': stub,
+                                            'stage_on_error': named != to}]],
                               'cancels': [[1]] if named else [], 'exit_codes': {'1': 3}}
                         yield {'kind': KIND, 'sc': dict(sc, sched=X.gen_sched(rng, sc, rng.randint(4, 40)))}
 
